@@ -13,6 +13,8 @@ CONSTANTS
   CompileMode = "stated"
   Inners <- InnersNone
   ScopeMode = "stated"
+  Doors <- DoorsApi
+  HookMode = "stated"
 INIT InitQuick
 NEXT Next
 INVARIANTS KeepInv BalanceSheetInv IncomeInv EquityInv TxBalanceInv LayoutInv FilterInv CompileInv SortedInv ExpectInv
